@@ -34,6 +34,13 @@ statements split at `;` and after block statements):
    plus the recognised statements after its loop (`env.resize(new_size)`, `resizing.store(false)`,
    `resize_checking.store(false)`); the statements of the else branch; `fn batch` =
    `self.maybe_resize(); Batch::new(self)`.
+ * the registry of environments (`registry`): every `fn` holding an `EnvState { .. }` literal, every
+   `fn` calling `.insert(` on a map of environments, every `fn` writing `open_txs_count` / `resizing` /
+   `resize_checking` (atomic write methods, `get_mut`, `=`, `+=`, `-=` right after the field); in
+   `Store::new`: `let has_env = .. contains_key(&full_path) ..`, the literal and the insert sit inside
+   `if !has_env { .. }` and nowhere else in the function, and which of the EnvState names the `else`
+   branch mentions (today: `stores_count` only - opening a handle on a registered environment must
+   leave counter and flags alone, `Props/C18Handles.lean`).
  * every `fn` of the file that calls `enter_tx` or opens an LMDB transaction of its own
    (`.read_txn()`, `.static_read_txn()`, `.write_txn()`; the `nested_*` calls live inside a batch):
    is the gate call a statement `let <name> = <self|store>.enter_tx();` of the body itself, is it
@@ -498,6 +505,8 @@ IGNORED_STMTS = [
     r"(debug|trace|info|warn|error)!\(.*\)",
     r"let mut w_env_map=ENV_MAP\.get\(\)\.unwrap\(\)\.write\(\)",
     r"let env_state=w_env_map\.get_mut\(&env_path\)\.unwrap\(\)",
+    # verification hooks (DESIGN 1.3: add-only, `--cfg grin_verif` only, a no-op unless a crash point is armed)
+    r"#\[cfg\(grin_verif\)\]crate::verif_hooks::crash_point(_path)?\(.*\)",
 ]
 
 
@@ -730,6 +739,86 @@ def extract_sites(fns, all_items):
 BAD_WORD = re.compile(r"sorry|admit|axiom|native_decide|bv_decide|implemented_by|unsafe|maxHeartbeats")
 
 
+# ------------------------------------------------------------------------------------------------
+# the registry of environments: who creates / initialises / writes the per-environment gate state
+# ------------------------------------------------------------------------------------------------
+GATE_FIELDS = ("open_txs_count", "resizing", "resize_checking")
+WRITE_METHODS = ("store", "fetch_add", "fetch_sub", "swap", "compare_exchange", "compare_exchange_weak",
+                 "fetch_and", "fetch_or", "fetch_xor", "fetch_update", "get_mut")
+
+
+def extract_registry(fns):
+    """`ENV_MAP` bookkeeping: the functions that hold an `EnvState { .. }` literal, that `.insert(` into
+    a map, that write one of the gate fields (atomic write methods or plain `=` / `+=` / `-=` after the
+    field); and the two branches of `if !has_env { .. } else { .. }` in `Store::new`."""
+    literals, inserts = [], []
+    writers = {f: [] for f in GATE_FIELDS}
+    for fn in fns:
+        toks = flat(fn.body.items)
+        texts = [t.text for t in toks]
+        n = len(texts)
+        for i, t in enumerate(texts):
+            if t == "EnvState" and i + 1 < n and texts[i + 1] == "{" and fn.qual not in literals:
+                literals.append(fn.qual)
+            if t == "insert" and i > 0 and texts[i - 1] == "." and i + 1 < n and texts[i + 1] == "(":
+                # only maps of environments: the receiver chain names env_map / ENV_MAP
+                back = texts[max(0, i - 12):i]
+                if any("env_map" in b.lower() for b in back) and fn.qual not in inserts:
+                    inserts.append(fn.qual)
+            if t in GATE_FIELDS and i > 0 and texts[i - 1] == ".":
+                nxt = texts[i + 1] if i + 1 < n else ""
+                nxt2 = texts[i + 2] if i + 2 < n else ""
+                wrote = (nxt == "." and nxt2 in WRITE_METHODS) or nxt in ("=", "+=", "-=")
+                if wrote and fn.qual not in writers[t]:
+                    writers[t].append(fn.qual)
+    # `Store::new`: the two branches
+    new = [f for f in fns if f.qual == "Store::new"]
+    has_env_contains = False
+    under_not_has_env = False
+    else_touches = ["unreadable"]
+    then_has_literal = False
+    if len(new) == 1:
+        items = new[0].body.items
+        lets = {}
+        collect_lets(items, lets)
+        if "has_env" in lets:
+            c = lets["has_env"]
+            has_env_contains = "contains_key(&full_path)" in c and "remove" not in c and "insert" not in c
+        # find `if ! has_env {A} else {B}` at any depth
+        found = []
+
+        def walk(its):
+            for i, t in enumerate(its):
+                if is_id(t, "if") and is_p(at(its, i + 1), "!") and is_id(at(its, i + 2), "has_env") \
+                        and is_grp(at(its, i + 3), "{"):
+                    a = its[i + 3]
+                    b = its[i + 5] if is_id(at(its, i + 4), "else") and is_grp(at(its, i + 5), "{") else None
+                    found.append((a, b))
+                if t.kind == "group":
+                    walk(t.items)
+        walk(items)
+        if len(found) == 1:
+            a, b = found[0]
+            at_ = [x.text for x in flat(a.items)]
+            then_has_literal = "EnvState" in at_
+            under_not_has_env = then_has_literal and "insert" in at_
+            if b is not None:
+                bt = [x.text for x in flat(b.items)]
+                names = ("open_txs_count", "resizing", "resize_checking", "stores_count", "insert", "remove",
+                         "EnvState", "clear", "env")
+                else_touches = [x for x in names if x in bt]
+            else:
+                else_touches = []
+        # a literal / insert anywhere else in `new` (outside the `!has_env` branch) counts as unguarded
+        if len(found) == 1:
+            whole = [x.text for x in flat(items)]
+            a_t = [x.text for x in flat(found[0][0].items)]
+            if whole.count("EnvState") != a_t.count("EnvState"):
+                under_not_has_env = False
+    return {"literals": literals, "inserts": inserts, "writers": writers, "hasEnvContains": has_env_contains,
+            "underNotHasEnv": under_not_has_env, "elseTouches": else_touches}
+
+
 def lstr(s):
     s = re.sub(r"[^A-Za-z0-9_:.<>!=()& -]", "_", str(s))[:120]
     s = BAD_WORD.sub("x", s)
@@ -757,7 +846,7 @@ def lwait(w, ind):
             "  lockReleasedBeforeSleep := " + lbool(w.lock_released) + " }")
 
 
-def render(enter, resize, sites, ungated, err):
+def render(enter, resize, sites, ungated, err, registry=None):
     L = []
     L.append("import GrinVerif.Model.KvGate")
     L.append("/-! GENERATED by tools/gen_kvgate.py (plug-in of gen_tables.py) from /repo/store/src/lmdb.rs on every")
@@ -799,6 +888,21 @@ def render(enter, resize, sites, ungated, err):
     L.append("/-- functions that open an LMDB transaction of their own WITHOUT calling `enter_tx` -/")
     L.append("def ungatedTxnFns : List String := " + llist(ungated, lstr))
     L.append("")
+    if registry is None:
+        registry = {"literals": ["unreadable"], "inserts": ["unreadable"], "writers": {f: ["unreadable"] for f in GATE_FIELDS},
+                    "hasEnvContains": False, "underNotHasEnv": False, "elseTouches": ["unreadable"]}
+    L.append("/-- `ENV_MAP` bookkeeping: which functions create an `EnvState`, insert into the map of")
+    L.append("environments, write the gate fields; the branches of `if !has_env` in `Store::new` -/")
+    L.append("def registry : RegistryShape :=")
+    L.append("  { stateLiterals := " + llist(registry["literals"], lstr) + ",")
+    L.append("    inserts := " + llist(registry["inserts"], lstr) + ",")
+    L.append("    hasEnvIsContainsKey := " + lbool(registry["hasEnvContains"]) + ",")
+    L.append("    initUnderNotHasEnv := " + lbool(registry["underNotHasEnv"]) + ",")
+    L.append("    elseTouches := " + llist(registry["elseTouches"], lstr) + ",")
+    L.append("    countWriters := " + llist(registry["writers"]["open_txs_count"], lstr) + ",")
+    L.append("    resizingWriters := " + llist(registry["writers"]["resizing"], lstr) + ",")
+    L.append("    checkingWriters := " + llist(registry["writers"]["resize_checking"], lstr) + " }")
+    L.append("")
     L.append("end GV.Gen.KvGate")
     return "\n".join(L) + "\n"
 
@@ -825,7 +929,13 @@ def extract(path):
     enter = extract_enter(fns)
     resize = extract_resize(fns)
     sites, ungated = extract_sites(fns, items)
-    return render(enter, resize, sites, ungated, None)
+    try:
+        registry = extract_registry(fns)
+    except BaseException as ex:  # noqa: fail closed for this table only
+        if isinstance(ex, (KeyboardInterrupt, SystemExit)):
+            raise
+        registry = None
+    return render(enter, resize, sites, ungated, None, registry)
 
 
 def generate(repo_root, die):
